@@ -3,6 +3,7 @@ package alephium
 import (
 	"context"
 	"encoding/hex"
+	"time"
 
 	sdk "github.com/alephium/go-sdk"
 	"github.com/alephium/wormhole-fork/node/pkg/vaa"
@@ -62,7 +63,8 @@ func (w *Watcher) handleObsvRequest(ctx context.Context, logger *zap.Logger, cli
 
 			confirmed := make([]*reobservedEvent, 0)
 			for _, event := range events {
-				if event.header.Height+int32(event.confirmations) <= *currentHeight {
+				unconfirmed := &UnconfirmedEvent{&sdk.ContractEvent{TxId: txId}, event.msg}
+				if isEventConfirmed(logger, unconfirmed, event.header, time.Now().UnixMilli(), *currentHeight, w.isMainnet) {
 					logger.Info("re-observed event",
 						zap.String("txId", txId),
 						zap.String("blockHash", blockHash),
@@ -157,6 +159,7 @@ func (w *Watcher) getGovernanceEventsByTxId(
 			msg.consistencyLevel,
 			header,
 			txId,
+			msg,
 		})
 	}
 	return reobservedEvents, nil
@@ -167,4 +170,5 @@ type reobservedEvent struct {
 	confirmations uint8
 	header        *sdk.BlockHeaderEntry
 	txId          string
+	msg           *WormholeMessage
 }
